@@ -59,6 +59,8 @@ def apply(sim, op, state, rng):
         sim.get_hfield('TxED-1', 'f-1')
     elif op.startswith('clean_'):
         sim.clean(op[6:])
+    elif op == 'copy_results':
+        sim = sim.copy(what='results')
     elif op == 'copy':
         sim = sim.copy(what=['computed', 'all', 'results', 'plain'][int(rng.integers(4))])
     elif op == 'dict':
@@ -85,8 +87,8 @@ def check(tier='quick', seed=0):
     survey, models = setup(seed)
     refs = [reference(survey, m) for m in models]
     rng = np.random.default_rng(seed + 17)
-    nseq, maxlen = (14, 5) if tier == 'quick' else (80, 8)
-    fixed = [['compute', 'file_h5', 'gradient'], ['misfit', 'file_h5', 'clean_computed', 'misfit'], ['get_efield', 'misfit', 'gradient'], ['misfit', 'jtvec', 'gradient'], ['gradient', 'clean_computed', 'compute'], ['misfit', 'clean_keepresults', 'gradient'],
+    nseq, maxlen = (16, 5) if tier == 'quick' else (80, 8)
+    fixed = [['gradient', 'clean_keepresults', 'model_update'], ['gradient', 'copy_results', 'model_update'], ['compute', 'file_h5', 'gradient'], ['misfit', 'file_h5', 'clean_computed', 'misfit'], ['get_efield', 'misfit', 'gradient'], ['misfit', 'jtvec', 'gradient'], ['gradient', 'clean_computed', 'compute'], ['misfit', 'clean_keepresults', 'gradient'],
              ['gradient', 'model_update', 'compute'], ['gradient', 'copy', 'model_update'], ['compute', 'misfit', 'gradient', 'clean_computed', 'get_efield']]
     cases = 0
     for k in range(nseq):
